@@ -7,10 +7,10 @@ from .internal import value_properties as _value_properties
 
 
 def _splitlines(s: str) -> list[str]:
-    lines = s.splitlines(keepends=True)
-    if not lines or lines[-1].endswith('\n'):
-        lines.append('')
-    return lines
+    # Only LF (optionally preceded by CRs) ends a comment line in the grammar; str.splitlines would also split on
+    # form feed, NEL, U+2028 etc.
+    lines = s.split('\n')
+    return [line + '\n' for line in lines[:-1]] + [lines[-1]]
 
 
 @_registry.token_model
